@@ -186,6 +186,7 @@ func init() {
 			ruleLEX1(c)
 			ruleLEX2(c)
 			ruleLEX3(c)
+			ruleLEX3offsets(c, "LEX-3")
 			ruleLEX4(c)
 			ruleLEX5(c)
 			ruleLEX6(c)
@@ -199,6 +200,7 @@ func init() {
 		Thorough: func(c *Ctx) {
 			onInstances(c, func(c *Ctx) {
 				ruleLEX3(c)
+			ruleLEX3offsets(c, "LEX-3")
 				ruleFMT1(c)
 				ruleFMT3(c)
 			})
@@ -233,11 +235,13 @@ func init() {
 			ruleEOFL(c)
 			ruleFMT3(c)
 			ruleLEX3(c)
+			ruleLEX3offsets(c, "LEX-3")
 		},
 		Thorough: func(c *Ctx) {
 			onInstances(c, func(c *Ctx) {
 				ruleEOFL(c)
 				ruleLEX3(c)
+			ruleLEX3offsets(c, "LEX-3")
 			})
 		},
 	})
@@ -329,6 +333,7 @@ func init() {
 			ruleCRASH9(c)
 			ruleCRASH10(c)
 			ruleCRASH11(c)
+			ruleCRASH12(c)
 			ruleEMIT1(c, "CRASH-6")
 			ruleBIND2(c)
 		},
